@@ -88,6 +88,9 @@ pub enum Delivery {
     Duplicate(usize),
     /// a copy of node i with a corrupted creator signature (hash unchanged)
     BadSignature(usize),
+    /// a re-signed copy of node i with a bumped treasury: another hash, same parent and height,
+    /// indexed like any block and refused only when it is validated for the longest chain
+    InvalidSibling(usize),
 }
 
 fn describe(order: &[Delivery]) -> String {
@@ -97,6 +100,7 @@ fn describe(order: &[Delivery]) -> String {
             Delivery::Block(i) => format!("{}", i),
             Delivery::Duplicate(i) => format!("{}dup", i),
             Delivery::BadSignature(i) => format!("{}badsig", i),
+            Delivery::InvalidSibling(i) => format!("{}invalid-sibling", i),
         })
         .collect::<Vec<_>>()
         .join(",")
@@ -133,6 +137,14 @@ pub fn delivery_class(tree: &Tree, order: &[Delivery]) -> String {
                     extras.push("badsig")
                 }
             }
+            Delivery::InvalidSibling(i) => {
+                if !seen[tree.parents[*i - 1]] {
+                    parent_first = false;
+                }
+                if !extras.contains(&"invalid-sibling") {
+                    extras.push("invalid-sibling")
+                }
+            }
         }
     }
     let missing = (1..tree.hashes.len()).any(|i| !seen[i]);
@@ -165,11 +177,12 @@ pub async fn run_case(b: &mut Builder, tree: &Tree, order: &[Delivery], params: 
     // realistic configuration (initial_loading_completed = false): the 'out-of-order' branch of
     // add_block then rewrites the longest-chain index (one root cause, many symptoms)
     let mut tainted = false;
+    let mut taint_rel = "";
     for (step, d) in order.iter().enumerate() {
         let (before_id, before_hash) = node.tip().await;
         {
             let idx = match d {
-                Delivery::Block(i) | Delivery::Duplicate(i) | Delivery::BadSignature(i) => *i,
+                Delivery::Block(i) | Delivery::Duplicate(i) | Delivery::BadSignature(i) | Delivery::InvalidSibling(i) => *i,
             };
             let parent_hash = tree.hashes[tree.parents[idx - 1]];
             let held = node.chain.read().await.blocks.contains_key(&parent_hash);
@@ -177,6 +190,10 @@ pub async fn run_case(b: &mut Builder, tree: &Tree, order: &[Delivery], params: 
                 if !tainted {
                     rep.count("cases_with_parentless_delivery");
                 }
+                // where the latest parentless block sits relative to the node's tip: the
+                // out-of-order branch treats these differently
+                let id = b.store.get(&tree.hashes[idx]).id;
+                taint_rel = if id < before_id { "below-tip" } else if id == before_id { "at-tip-height" } else { "above-tip" };
                 tainted = true;
             }
         }
@@ -186,6 +203,14 @@ pub async fn run_case(b: &mut Builder, tree: &Tree, order: &[Delivery], params: 
                 let mut bytes = b.store.get(&tree.hashes[*i]).bytes.clone();
                 bytes[117 + 5] ^= 0x40; // inside the 64-byte creator signature
                 bytes
+            }
+            Delivery::InvalidSibling(i) => {
+                let mut blk = b.store.get(&tree.hashes[*i]).block.clone();
+                let creator = b.actors[0].clone();
+                blk.treasury += 1;
+                crate::props::c04::reseal(&mut blk, &creator, false);
+                rep.count("invalid_sibling_deliveries");
+                block_bytes(&blk)
             }
         };
         let r = crate::panics::catch_async(node.add_bytes(&bytes)).await;
@@ -269,7 +294,7 @@ pub async fn run_case(b: &mut Builder, tree: &Tree, order: &[Delivery], params: 
         if !findings.is_empty() {
             for f in findings {
                 let sig = if tainted {
-                    format!("{}|clause=state-damaged-after-parentless-block", prop)
+                    format!("{}|clause=state-damaged-after-parentless-block|latest-parentless-block={}", prop, taint_rel)
                 } else {
                     format!("{}|clause={}|delivery={}", prop, f.clause, class)
                 };
@@ -335,12 +360,13 @@ pub async fn run(ctx: &Ctx, rep: &mut Report) {
                 // injected duplicates / invalid copies / withheld blocks at every position
                 let base: Vec<usize> = (1..=n).collect();
                 for pos in 0..=n {
-                    for kind in 0..3 {
+                    for kind in 0..4 {
                         let mut order: Vec<Delivery> = base.iter().map(|i| Delivery::Block(*i)).collect();
                         let target = 1 + (pos + kind) % n;
                         match kind {
                             0 => order.insert(pos, Delivery::Duplicate(target)),
                             1 => order.insert(pos, Delivery::BadSignature(target)),
+                            3 => order.insert(pos, Delivery::InvalidSibling(target)),
                             _ => {
                                 if pos < n {
                                     order.remove(pos);
@@ -416,6 +442,12 @@ pub async fn run(ctx: &Ctx, rep: &mut Report) {
                 let pos = rng.below(order.len() as u64) as usize;
                 let t = 1 + rng.below(n as u64) as usize;
                 order.insert(pos, if rng.chance(1, 2) { Delivery::Duplicate(t) } else { Delivery::BadSignature(t) });
+            }
+            // invalid siblings of up to three blocks, anywhere in the order
+            for _ in 0..rng.below(4) {
+                let pos = rng.below(order.len() as u64 + 1) as usize;
+                let t = 1 + rng.below(n as u64) as usize;
+                order.insert(pos, Delivery::InvalidSibling(t));
             }
             rep.nontrivial(&format!("rand|{:?}|{}", parents, describe(&order)));
             run_case(&mut b, &tree, &order, &params, rep, "C03").await;
